@@ -179,10 +179,19 @@ def r4(ctx):
         at = atoms_of_facts(facts_at(dels[0]))
         ok = any(isinstance(a, ast.Compare) and isinstance(a.ops[0], ast.Is) and p and task in (norm(a.left), norm(a.comparators[0])) for a, p in at)
         loops = enclosing_loops(dels[0])
-        ok = ok and len(loops) == 1 and norm(loops[0].iter) == "enumerate(self.tasks)"
+        ok = ok and len(loops) == 1 and norm(loops[0].iter) in ("enumerate(self.tasks)", "range(len(self.tasks))")
         if ok:
-            idx = loops[0].target.elts[0].id
-            ok = norm(dels[0].targets[0]) == "self.tasks[%s]" % idx
+            if norm(loops[0].iter).startswith("enumerate"):
+                idx = loops[0].target.elts[0].id
+                entry = loops[0].target.elts[1]
+            else:
+                # by index: the entry compared must be self.tasks[i] of the same i
+                idx = loops[0].target.id
+                un = [s_ for s_ in loops[0].body if isinstance(s_, ast.Assign) and norm(s_.value) == "self.tasks[%s]" % idx]
+                entry = un[0].targets[0] if len(un) == 1 else None
+            cmp_names = {norm(a.left) for a, p in at if isinstance(a, ast.Compare) and isinstance(a.ops[0], ast.Is) and p} | {norm(a.comparators[0]) for a, p in at if isinstance(a, ast.Compare) and isinstance(a.ops[0], ast.Is) and p}
+            third = norm(entry.elts[2]) if isinstance(entry, ast.Tuple) and len(entry.elts) == 3 else None
+            ok = norm(dels[0].targets[0]) == "self.tasks[%s]" % idx and (third in cmp_names or "self.tasks[%s][2]" % idx in cmp_names)
             brk = [b for b in ast.walk(loops[0]) if isinstance(b, ast.Break)]
             ok = ok and len(brk) == 1 and getattr(brk[0], "_parent", None) is getattr(dels[0], "_parent", None)
     ctx.check("TaskManager.suspend_task:removes-that-task", ok, where(tm.module, s), "suspend must delete the heap entry whose task *is* the given one, then stop scanning")
@@ -472,6 +481,33 @@ def r7(ctx):
         if any(h.type is not None and norm(h.type) == "Exception" for h in t.handlers) and any(isinstance(l, ast.While) for l in enclosing_loops(t)):
             ok = True
     ctx.check("core.run:loop-survives", ok, where(m, f), "the catch-all must be inside the main loop")
+    if handler_loggers_exist(ctx, "core") < 2:
+        raise ShapeError("core: the handlers of the main loop log nothing")
+
+
+def handler_loggers_exist(ctx, modname):
+    """a handler that contains a failure must not fail itself: in the unstripped source, every `X._exception(..)` /
+    `X._error(..)` .. inside an except handler names a function or class of the module that the debugging decorator
+    gives those attributes to (an undecorated helper raises AttributeError right inside the handler)"""
+    m = ctx.prog.module(modname)
+    tree = m.raw_tree
+    decorated = set()
+    for n in ast.walk(tree):
+        if isinstance(n, (ast.FunctionDef, ast.ClassDef)):
+            if any(norm(d) in ("bacpypes_debugging", "debugging.bacpypes_debugging") or (isinstance(d, ast.Call) and norm(d.func) == "bacpypes_debugging") for d in n.decorator_list) \
+                    or (isinstance(n, ast.ClassDef) and any(norm(b) in ("Logging", "DebugContents", "SingletonLogging") for b in n.bases)):
+                decorated.add(n.name)
+        elif isinstance(n, ast.Call) and norm(n.func) == "bacpypes_debugging" and n.args and isinstance(n.args[0], ast.Name):
+            decorated.add(n.args[0].id)
+    n_calls = 0
+    for h in [x for x in ast.walk(tree) if isinstance(x, ast.ExceptHandler)]:
+        for c in [x for st in h.body for x in ast.walk(st) if isinstance(x, ast.Call)]:
+            f = c.func
+            if isinstance(f, ast.Attribute) and f.attr in ("_debug", "_info", "_warning", "_error", "_exception", "_critical") and isinstance(f.value, ast.Name):
+                n_calls += 1
+                ctx.check("%s:handler-logger[%s.%s@%d]" % (modname, f.value.id, f.attr, n_calls), f.value.id in decorated, where(m, c),
+                          "the handler logs through %s.%s, but %s is not decorated with bacpypes_debugging: the handler raises AttributeError instead of containing the failure" % (f.value.id, f.attr, f.value.id))
+    return n_calls
 
 
 @rule("C14.R8", "deferred functions are called in submission order, each batch detached before its first call", floor=4, engines="E1")
